@@ -144,7 +144,7 @@ def components(world: World) -> List[List[SimInstance]]:
     adj = {i.idx: set() for i in live}
     for a in live:
         for b in live:
-            if a.idx < b.idx and world.reachable(a, b):
+            if a.idx < b.idx and world.reachable(a, b) and world.reachable(b, a):
                 if views[a.idx]['instances'].get(b.identifier) != 'ISOLATED' and \
                         views[b.idx]['instances'].get(a.identifier) != 'ISOLATED':
                     adj[a.idx].add(b.idx)
